@@ -38,6 +38,6 @@ stub_property!(c14, C14, "C14");
 pub mod c15;
 pub mod c16;
 pub mod c17;
-stub_property!(c18, C18, "C18");
+pub mod c18;
 pub mod c19;
 pub mod c20;
